@@ -90,6 +90,9 @@ class Lock:
 def gen_table():
     """(output file, mode, sources relative to REPO): collected from the GEN lists of tools/runner/props/c*.py"""
     import importlib
+    pd = os.path.join(os.path.dirname(os.path.abspath(__file__)), "props")
+    if pd not in sys.path:
+        sys.path.insert(0, pd)
     table = []
     pdir = os.path.join(os.path.dirname(os.path.abspath(__file__)), "props")
     for n in sorted(os.listdir(pdir)):
